@@ -207,7 +207,9 @@ def pack_to_parquet_schedules(chk, r, schedulers, root):
     from .c19 import snapshot
     base = [[3, 3], [40, 5], [10, 50], [60, 60], [33, 20], [5, 30]]
     for variant, (pts, npart) in {"chains": ([list(base[i % 6]) for i in range(180)], 8),
-                                  "plain": ([[r.randint(0, 64), r.randint(0, 64)] for _ in range(120)], 5)}.items():
+                                  "plain": ([[r.randint(0, 64), r.randint(0, 64)] for _ in range(120)], 5),
+                                  # every argument left at its default: the defaults do not depend on the pool either
+                                  "defaults": ([[r.randint(0, 64), r.randint(0, 64)] for _ in range(150)], None)}.items():
         df = GeoDataFrame({"a": list(range(len(pts))), "geometry": geo.make_array("point", pts, "float64")})
 
         def run(sched, workers, delay_seed, tag):
@@ -224,14 +226,15 @@ def pack_to_parquet_schedules(chk, r, schedulers, root):
                 return 0
             fs = packfs.WrapFS(delay=delay)
             with dask.config.set(scheduler=sched, num_workers=workers):
-                dd.from_pandas(df, npartitions=4).pack_partitions_to_parquet(os.path.join(work, "out.parq"), filesystem=fs, npartitions=npart, p=6)
+                dd.from_pandas(df, npartitions=4).pack_partitions_to_parquet(os.path.join(work, "out.parq"), filesystem=fs,
+                                                                              **({} if npart is None else dict(npartitions=npart, p=6)))
             snap = snapshot(work, os.path.join(work, "out.parq"))
             shutil.rmtree(work, ignore_errors=True)
             return snap
         try:
             ref = run("synchronous", 1, None, "ref")
             chk.evaluated()
-            for sched, workers in schedulers:
+            for sched, workers in list(schedulers) + ([("threads", 12)] if npart is None else []):
                 for ds in (1, 2):
                     got = run(sched, workers, ds, f"{sched}{workers}_{ds}")
                     chk.evaluated()
